@@ -1,4 +1,4 @@
-/- C16 helper lemmas: exactly-once-if-fetched for the attester handler, under `envOK` and `quietOK`. -/
+/- C16 helper lemmas: exactly-once-if-fetched for the attester handler, under `envOK`. -/
 import Ssv.Proofs.DutiesLiveSync
 import Ssv.Proofs.DutiesLatestAtt
 
@@ -101,34 +101,35 @@ theorem attPF_post (n : Net) (st : HState) (m : DMon) (E t : Nat) (r1 r2 : Fetch
 
 /-! ### invariant -/
 
-structure AInvD (n : Net) (st : HState) (m : DMon) (lt : Option Nat) (now : Nat) (ff : Bool) (pend : Option Nat) :
-    Prop where
+structure AInv (n : Net) (st : HState) (m : DMon) (lt : Option Nat) (now : Nat) (le : Option Nat) : Prop where
   ok : m.ok = true
-  ffeq : ff = st.fetchFirst
   ltnow : ∀ t, lt = some t → t ≤ now
   i1 : st.fetchFirst = true → st.fetchCur = true
   i2 : st.indicesChanged = true → st.fetchCur = true
   dueLe : ∀ K A, m.due K = some A → K ≤ n.epoch now + 1
-  pendle : ∀ r, pend = some r → r ≤ now
-  A : ∀ t, Cand lt now t → st.fetchFirst = true ∨ (∃ r, pend = some r ∧ n.epoch r < n.epoch t) ∨
+  leLe : ∀ K, le = some K → K ≤ n.epoch now
+  /-- the epoch of a possible next tick is covered, unless that tick fetches before it executes
+      (`fetchFirst`, or — first tick of a new epoch with `fetchNextEpoch` set — the first-tick block) -/
+  A : ∀ t, Cand lt now t → st.fetchFirst = true ∨ (st.fetchNext = true ∧ le ≠ some (n.epoch t)) ∨
         Cov .att st m (n.epoch t)
-  B : ∀ t, Cand lt now t → Cov .att st m (n.epoch t + 1) ∨ (st.fetchNext = true ∧ attShouldFetchNext n t = true)
+  /-- the epoch after it is covered, unless its (re-)fetch is still pending -/
+  B : ∀ t, Cand lt now t → Cov .att st m (n.epoch t + 1) ∨ st.fetchNext = true
 
-/-- one tick, from the facts it needs about the state before it: the current epoch is covered unless the tick
-    fetches first; the next epoch is covered unless this tick (re-)fetches it -/
+/-- one tick, from the facts it needs about the state it starts in -/
 theorem attTick_core (n : Net) (hspe : 0 < n.spe) {st : HState} {m : DMon} {now : Nat} (t0 clock : Nat) (r1 r2 : FetchRes)
     (hok : m.ok = true) (hi1 : st.fetchFirst = true → st.fetchCur = true)
     (hi2 : st.indicesChanged = true → st.fetchCur = true)
     (hdueLe : ∀ K A, m.due K = some A → K ≤ n.epoch now + 1) (hnow : now ≤ t0)
     (hA : st.fetchFirst = true ∨ Cov .att st m (n.epoch t0))
-    (hB : Cov .att st m (n.epoch t0 + 1) ∨ (st.fetchNext = true ∧ attShouldFetchNext n t0 = true)) :
-    AInvD n (attTick n st t0 clock r1 r2).1 (drun .att n m (attTick n st t0 clock r1 r2).2) (some t0) t0 false none := by
+    (hB : Cov .att st m (n.epoch t0 + 1) ∨ st.fetchNext = true) :
+    AInv n (attTick n st t0 clock r1 r2).1 (drun .att n m (attTick n st t0 clock r1 r2).2) (some t0) t0
+      (some (n.epoch t0)) := by
   have hem := epoch_mono n hnow
   obtain ⟨store, ff0, fc, fn, ic⟩ := st
   have fin : ∀ (s : HState) (m2 : DMon), m2.ok = true → s.fetchFirst = false → s.indicesChanged = false →
-      Cov .att s m2 (n.epoch t0) → Cov .att s m2 (n.epoch t0 + 1) →
+      Cov .att s m2 (n.epoch t0) → (Cov .att s m2 (n.epoch t0 + 1) ∨ s.fetchNext = true) →
       (∀ K A, m2.due K = some A → K = n.epoch t0 ∨ K = n.epoch t0 + 1 ∨ m.due K = some A) →
-      AInvD n (attPost n s t0) m2 (some t0) t0 false none := by
+      AInv n (attPost n s t0) m2 (some t0) t0 (some (n.epoch t0)) := by
     intro s m2 hok hff hic hc0 hc1 hk
     have hpf := attPost_flags n s t0
     have hdue : ∀ K A, m2.due K = some A → K ≤ n.epoch t0 + 1 := by
@@ -137,18 +138,10 @@ theorem attTick_core (n : Net) (hspe : 0 < n.spe) {st : HState} {m : DMon} {now 
       · omega
       · omega
       · have := hdueLe K A h1; omega
-    have hall : ∀ K, (n.epoch t0 < K ∨ (K = n.epoch t0 ∧ ¬ (t0 % n.spe == n.spe - 1) = true)) →
+    -- coverage of an epoch survives the end of the ticker branch unless it is the current epoch at its last slot
+    have hpost : ∀ K, Cov .att s m2 K → (n.epoch t0 < K ∨ (K = n.epoch t0 ∧ ¬ (t0 % n.spe == n.spe - 1) = true)) →
         Cov .att (attPost n s t0) m2 K := by
-      intro K hK
-      have hcK : Cov .att s m2 K := by
-        by_cases h0 : K = n.epoch t0
-        · rw [h0]; exact hc0
-        · by_cases h1 : K = n.epoch t0 + 1
-          · rw [h1]; exact hc1
-          · apply Cov.of_none
-            cases hd : m2.due K with
-            | none => rfl
-            | some A => have := hdue K A hd; omega
+      intro K hcK hK
       have hst := attPost_store_eq n s t0
       split at hst
       · rename_i hlast
@@ -157,6 +150,12 @@ theorem attTick_core (n : Net) (hspe : 0 < n.spe) {st : HState} {m : DMon} {now 
         · omega
         · exact absurd hlast hK.2
       · exact hcK.of_store_eq hst
+    have hfar : ∀ K, n.epoch t0 + 1 < K → Cov .att (attPost n s t0) m2 K := by
+      intro K hK
+      apply Cov.of_none
+      cases hd : m2.due K with
+      | none => rfl
+      | some A => have := hdue K A hd; omega
     have hnext : ∀ t, Cand (some t0) t0 t → n.epoch t0 < n.epoch t ∨
         (n.epoch t = n.epoch t0 ∧ ¬ (t0 % n.spe == n.spe - 1) = true) := by
       intro t ht
@@ -167,15 +166,30 @@ theorem attTick_core (n : Net) (hspe : 0 < n.spe) {st : HState} {m : DMon} {now 
       · by_cases heq : n.epoch t = n.epoch t0
         · exact Or.inr ⟨heq, hlast⟩
         · exact Or.inl (by omega)
-    refine ⟨hok, by rw [hpf.1, hff], fun t ht => by cases ht; exact Nat.le_refl _, ?_, ?_, hdue,
-      fun r hr => (nomatch hr), ?_, ?_⟩
+    -- the epoch after the current one: covered, or its fetch is still pending
+    have hc1' : Cov .att (attPost n s t0) m2 (n.epoch t0 + 1) ∨ (attPost n s t0).fetchNext = true := by
+      rcases hc1 with h1 | h1
+      · exact Or.inl (hpost _ h1 (Or.inl (by omega)))
+      · exact Or.inr (by rw [hpf.2.2.2, h1]; rfl)
+    refine ⟨hok, fun t ht => by cases ht; exact Nat.le_refl _, ?_, ?_, hdue,
+      fun K hK => by cases hK; exact Nat.le_refl _, ?_, ?_⟩
     · intro hh; rw [hpf.1, hff] at hh; cases hh
     · intro hh; rw [hpf.2.2.1, hic] at hh; cases hh
     · intro t ht
-      exact Or.inr (Or.inr (hall _ (hnext t ht)))
+      rcases hnext t ht with h1 | h1
+      · by_cases h2 : n.epoch t = n.epoch t0 + 1
+        · rcases hc1' with h3 | h3
+          · exact Or.inr (Or.inr (by rw [h2]; exact h3))
+          · refine Or.inr (Or.inl ⟨h3, ?_⟩)
+            intro hh
+            have := Option.some.inj hh
+            omega
+        · exact Or.inr (Or.inr (hfar _ (by omega)))
+      · exact Or.inr (Or.inr (by rw [h1.1]; exact hpost _ hc0 (Or.inr ⟨rfl, h1.2⟩)))
     · intro t ht
-      refine Or.inl (hall _ (Or.inl ?_))
-      rcases hnext t ht with h1 | h1 <;> omega
+      rcases hnext t ht with h1 | h1
+      · exact Or.inl (hfar _ (by omega))
+      · rw [h1.1]; exact hc1'
   cases ff0
   · -- regular tick: execute, (reset on indices change,) fetch
     have hcov : Cov .att ⟨store, false, fc, fn, ic⟩ m (n.epoch t0) := by
@@ -189,12 +203,23 @@ theorem attTick_core (n : Net) (hspe : 0 < n.spe) {st : HState} {m : DMon} {now 
     have pf := attPF_post n s0 (drun .att n m (attProcessExecution n ⟨store, false, fc, fn, ic⟩ (n.epoch t0) t0 clock))
       (n.epoch t0) t0 r1 r2
     have hfl := attPF_flags n s0 (n.epoch t0) t0 r1 r2
+    have hkeep := attPF_keep n s0 (n.epoch t0) t0 r1 r2
     have hs0ff : s0.fetchFirst = false := by rw [hs0]; split <;> rfl
     have hs0ic : s0.indicesChanged = false := by
       rw [hs0]; split
       · rfl
       · rename_i hh; simpa using hh
     have hs0fn : s0.fetchNext = fn := by rw [hs0]; split <;> rfl
+    have hB0 : Cov .att s0 (drun .att n m (attProcessExecution n ⟨store, false, fc, fn, ic⟩ (n.epoch t0) t0 clock))
+        (n.epoch t0 + 1) ∨ fn = true := by
+      rcases hB with h1 | h1
+      · left
+        have h2 := h1.of_due_eq hx.2
+        rw [hs0]
+        split
+        · exact h2.of_reset rfl (by omega)
+        · exact h2
+      · exact Or.inr h1
     simp only [attTick, Bool.false_eq_true, if_false, drun_append]
     apply fin _ _ (by rw [pf.okeq]; exact hx.1) (by rw [hfl.1, hs0ff]) (by rw [hfl.2.1, hs0ic])
     · apply pf.covp
@@ -205,16 +230,17 @@ theorem attTick_core (n : Net) (hspe : 0 < n.spe) {st : HState} {m : DMon} {now 
       · right
         rw [hs0, if_neg hic]
         exact hcov.of_due_eq hx.2
-    · apply pf.covn
-      rcases hB with h1 | h1
-      · right
-        have h2 := h1.of_due_eq hx.2
-        rw [hs0]
-        split
-        · exact h2.of_reset rfl (by omega)
-        · exact h2
-      · left
-        rw [hs0fn]; exact h1
+    · cases hsh : attShouldFetchNext n t0 with
+      | true =>
+        left
+        apply pf.covn
+        rcases hB0 with h1 | h1
+        · exact Or.inr h1
+        · exact Or.inl ⟨by rw [hs0fn]; exact h1, hsh⟩
+      | false =>
+        rcases hB0 with h1 | h1
+        · exact Or.inl (pf.covn (Or.inr h1))
+        · exact Or.inr (by rw [hkeep hsh, hs0fn]; exact h1)
     · intro K A hA'
       rcases pf.keys K A hA' with h1 | h1 | h1
       · exact Or.inl h1
@@ -224,199 +250,183 @@ theorem attTick_core (n : Net) (hspe : 0 < n.spe) {st : HState} {m : DMon} {now 
     have hfc : fc = true := hi1 rfl
     have pf := attPF_post n ⟨store, false, fc, fn, false⟩ m (n.epoch t0) t0 r1 r2
     have hfl := attPF_flags n ⟨store, false, fc, fn, false⟩ (n.epoch t0) t0 r1 r2
+    have hkeep := attPF_keep n ⟨store, false, fc, fn, false⟩ (n.epoch t0) t0 r1 r2
     have hc0 := pf.covp (Or.inl hfc)
-    have hc1 := pf.covn (by
-      rcases hB with h1 | h1
-      · exact Or.inr h1
-      · exact Or.inl h1)
+    have hc1 : Cov .att (attProcessFetching n ⟨store, false, fc, fn, false⟩ (n.epoch t0) t0 r1 r2).1
+        (drun .att n m (attProcessFetching n ⟨store, false, fc, fn, false⟩ (n.epoch t0) t0 r1 r2).2) (n.epoch t0 + 1) ∨
+        (attProcessFetching n ⟨store, false, fc, fn, false⟩ (n.epoch t0) t0 r1 r2).1.fetchNext = true := by
+      cases hsh : attShouldFetchNext n t0 with
+      | true =>
+        left
+        apply pf.covn
+        rcases hB with h1 | h1
+        · exact Or.inr h1
+        · exact Or.inl ⟨h1, hsh⟩
+      | false =>
+        rcases hB with h1 | h1
+        · exact Or.inl (pf.covn (Or.inr h1))
+        · exact Or.inr (by rw [hkeep hsh]; exact h1)
     have hx := dstep_exec .att n t0 clock (st := (attProcessFetching n ⟨store, false, fc, fn, false⟩ (n.epoch t0) t0 r1 r2).1)
       (m := drun .att n m (attProcessFetching n ⟨store, false, fc, fn, false⟩ (n.epoch t0) t0 r1 r2).2)
       (by rw [pf.okeq]; exact hok) (fun _ => hc0)
     simp only [execOf] at hx
     simp only [attTick, if_true, drun_append]
-    apply fin _ _ hx.1 (by rw [hfl.1]) (by rw [hfl.2.1]) (hc0.of_due_eq hx.2) (hc1.of_due_eq hx.2)
-    intro K A hA'
-    rw [hx.2] at hA'
-    exact pf.keys K A hA'
+    apply fin _ _ hx.1 (by rw [hfl.1]) (by rw [hfl.2.1]) (hc0.of_due_eq hx.2)
+    · rcases hc1 with h1 | h1
+      · exact Or.inl (h1.of_due_eq hx.2)
+      · exact Or.inr h1
+    · intro K A hA'
+      rw [hx.2] at hA'
+      exact pf.keys K A hA'
 
-theorem attTick_ainv (n : Net) (hspe : 0 < n.spe) {st : HState} {m : DMon} {lt : Option Nat} {now : Nat} {ff : Bool}
-    {pend : Option Nat} (t0 clock : Nat) (r1 r2 : FetchRes) (h : AInvD n st m lt now ff pend) (hc : Cand lt now t0)
-    (hq : ∀ r, pend = some r → ¬ n.epoch r < n.epoch t0) :
-    AInvD n (attTick n st t0 clock r1 r2).1 (drun .att n m (attTick n st t0 clock r1 r2).2) (some t0) t0 false none := by
-  apply attTick_core n hspe t0 clock r1 r2 h.ok h.i1 h.i2 h.dueLe hc.2
-  · rcases h.A t0 hc with h1 | ⟨r, hr, hlt⟩ | h1
-    · exact Or.inl h1
-    · exact absurd hlt (hq r hr)
-    · exact Or.inr h1
-  · exact h.B t0 hc
+/-- the ticker branch with its first-tick-of-a-new-epoch block -/
+theorem attTick_inv (n : Net) (hspe : 0 < n.spe) {st : HState} {m : DMon} {lt : Option Nat} {now : Nat} {le : Option Nat}
+    (t0 clock : Nat) (r1 r2 : FetchRes) (h : AInv n st m lt now le) (hc : Cand lt now t0) :
+    AInv n (attTick n (repairPre st le (n.epoch t0)) t0 clock r1 r2).1
+      (drun .att n m (attTick n (repairPre st le (n.epoch t0)) t0 clock r1 r2).2) (some t0) t0 (some (n.epoch t0)) := by
+  unfold repairPre
+  split
+  · rename_i hcond
+    simp only [Bool.and_eq_true, bne_iff_ne, ne_eq] at hcond
+    have hB : Cov .att { st with fetchCur := true, fetchFirst := true } m (n.epoch t0 + 1) ∨ st.fetchNext = true :=
+      Or.inr hcond.2
+    exact attTick_core n hspe (st := { st with fetchCur := true, fetchFirst := true }) t0 clock r1 r2 h.ok
+      (fun _ => rfl) (fun _ => rfl) h.dueLe hc.2 (Or.inl rfl) hB
+  · rename_i hcond
+    simp only [Bool.and_eq_true, bne_iff_ne, ne_eq, not_and] at hcond
+    have hA : st.fetchFirst = true ∨ Cov .att st m (n.epoch t0) := by
+      rcases h.A t0 hc with h1 | ⟨h1, h2⟩ | h1
+      · exact Or.inl h1
+      · exact absurd h1 (hcond h2)
+      · exact Or.inr h1
+    exact attTick_core n hspe t0 clock r1 r2 h.ok h.i1 h.i2 h.dueLe hc.2 hA (h.B t0 hc)
 
-/-- a notice that only changes flags (and possibly moves the clock forward) -/
-theorem att_keep_inv (n : Net) {st st' : HState} {m : DMon} {lt : Option Nat} {now r : Nat} {ff : Bool} {pend : Option Nat}
-    (h : AInvD n st m lt now ff pend) (hnow : now ≤ r) (hs : st'.store = st.store) (hff : st'.fetchFirst = st.fetchFirst)
+/-! ### notices (handled at any time: their slot may be older than the last tick) -/
+
+/-- a notice that only changes flags -/
+theorem att_keep_inv (n : Net) {st st' : HState} {m : DMon} {lt : Option Nat} {now now' : Nat} {le : Option Nat}
+    (h : AInv n st m lt now le) (hnow : now ≤ now') (hs : st'.store = st.store) (hff : st'.fetchFirst = st.fetchFirst)
     (hfn : st.fetchNext = true → st'.fetchNext = true)
     (hi1 : st'.fetchFirst = true → st'.fetchCur = true) (hi2 : st'.indicesChanged = true → st'.fetchCur = true) :
-    AInvD n st' m lt r ff pend := by
+    AInv n st' m lt now' le := by
   have hem := epoch_mono n hnow
-  refine ⟨h.ok, by rw [hff]; exact h.ffeq, fun t ht => Nat.le_trans (h.ltnow t ht) hnow, hi1, hi2,
-    fun K A hA => by have := h.dueLe K A hA; omega, fun r' hr' => Nat.le_trans (h.pendle r' hr') hnow, ?_, ?_⟩
+  refine ⟨h.ok, fun t ht => Nat.le_trans (h.ltnow t ht) hnow, hi1, hi2,
+    fun K A hA => by have := h.dueLe K A hA; omega, fun K hK => by have := h.leLe K hK; omega, ?_, ?_⟩
   · intro t ht
     rcases h.A t (ht.mono hnow) with h1 | h1 | h1
     · exact Or.inl (by rw [hff]; exact h1)
-    · exact Or.inr (Or.inl h1)
+    · exact Or.inr (Or.inl ⟨hfn h1.1, h1.2⟩)
     · exact Or.inr (Or.inr (h1.of_store_eq hs))
   · intro t ht
     rcases h.B t (ht.mono hnow) with h1 | h1
     · exact Or.inl (h1.of_store_eq hs)
-    · exact Or.inr ⟨hfn h1.1, h1.2⟩
+    · exact Or.inr (hfn h1)
 
-/-- a notice at slot `r` in the fetch-next window that resets the next epoch's duties and sets `fetchNextEpoch`
-    without touching `fetchFirst` (reorg(current), indices change) -/
-theorem att_resetNext_inv (n : Net) {st st' : HState} {m : DMon} {lt : Option Nat} {now r : Nat} {ff : Bool}
-    {pend : Option Nat} (h : AInvD n st m lt now ff pend) (hnow : now ≤ r) (hsh : attShouldFetchNext n r = true)
-    (hs : st'.store = st.store.reset (n.epoch r + 1)) (hff : st'.fetchFirst = st.fetchFirst)
-    (hfn : st'.fetchNext = true)
-    (hi1 : st'.fetchFirst = true → st'.fetchCur = true) (hi2 : st'.indicesChanged = true → st'.fetchCur = true) :
-    AInvD n st' m lt r ff (if (!ff) = true then keepOldest pend r else pend) := by
+/-- reorg(current) / indices change inside the fetch-next window: `ResetEpoch(E+1)`, `fetchNextEpoch = true`, then the
+    late-notice block.  `s` is the state after the existing code of the branch. -/
+theorem att_resetNext_inv (n : Net) {st s : HState} {m : DMon} {lt : Option Nat} {now now' : Nat} {le : Option Nat} (E : Nat)
+    (h : AInv n st m lt now le) (hnow : now ≤ now')
+    (hs : s.store = st.store.reset (E + 1)) (hff : s.fetchFirst = st.fetchFirst) (hfn : s.fetchNext = true)
+    (hi1 : s.fetchFirst = true → s.fetchCur = true) (hi2 : s.indicesChanged = true → s.fetchCur = true) :
+    AInv n (lateFix s le (E + 1)) m lt now' le := by
   have hem := epoch_mono n hnow
-  refine ⟨h.ok, by rw [hff]; exact h.ffeq, fun t ht => Nat.le_trans (h.ltnow t ht) hnow, hi1, hi2,
-    fun K A hA => by have := h.dueLe K A hA; omega, ?_, ?_, ?_⟩
-  · intro r' hr'
-    split at hr'
-    · rcases keepOldest_cases pend r with ⟨_, h2⟩ | ⟨r0, h1, h2⟩
-      · rw [h2] at hr'; have := Option.some.inj hr'; omega
-      · rw [h2] at hr'; have := Option.some.inj hr'; have := h.pendle r0 h1; omega
-    · exact Nat.le_trans (h.pendle r' hr') hnow
-  · intro t ht
-    have hpt := epoch_mono n ht.2
-    cases hffv : ff with
-    | true =>
-      left; rw [hff, ← h.ffeq]; exact hffv
-    | false =>
-      simp only [Bool.not_false, if_true]
-      by_cases heq : n.epoch t = n.epoch r + 1
-      · refine Or.inr (Or.inl ?_)
-        rcases keepOldest_cases pend r with ⟨_, h2⟩ | ⟨r0, h1, h2⟩
-        · exact ⟨r, h2, by omega⟩
-        · have := epoch_mono n (Nat.le_trans (h.pendle r0 h1) hnow)
-          exact ⟨r0, h2, by omega⟩
-      · rcases h.A t (ht.mono hnow) with h1 | ⟨r0, h1, h2⟩ | h1
-        · exact Or.inl (by rw [hff]; exact h1)
-        · refine Or.inr (Or.inl ⟨r0, ?_, h2⟩)
-          rw [h1]; rfl
-        · exact Or.inr (Or.inr (h1.of_reset hs (by omega)))
-  · intro t ht
-    have hpt := epoch_mono n ht.2
-    by_cases heq : n.epoch t = n.epoch r
-    · exact Or.inr ⟨hfn, attShould_mono n heq.symm ht.2 hsh⟩
-    · rcases h.B t (ht.mono hnow) with h1 | h1
-      · exact Or.inl (h1.of_reset hs (by omega))
-      · exact Or.inr ⟨hfn, h1.2⟩
+  by_cases hle : le = some (E + 1)
+  · have hbeq : (le == some (E + 1)) = true := by simp [hle]
+    simp only [lateFix, hbeq, if_true]
+    exact ⟨h.ok, fun t ht => Nat.le_trans (h.ltnow t ht) hnow, fun _ => rfl, fun _ => rfl,
+      fun K A hA => by have := h.dueLe K A hA; omega, fun K hK => by have := h.leLe K hK; omega,
+      fun t _ => Or.inl rfl, fun t _ => Or.inr hfn⟩
+  · have hbeq : (le == some (E + 1)) = false := by simpa using hle
+    simp only [lateFix, hbeq, Bool.false_eq_true, if_false]
+    refine ⟨h.ok, fun t ht => Nat.le_trans (h.ltnow t ht) hnow, hi1, hi2,
+      fun K A hA => by have := h.dueLe K A hA; omega, fun K hK => by have := h.leLe K hK; omega, ?_,
+      fun t _ => Or.inr hfn⟩
+    intro t ht
+    by_cases hlt : le = some (n.epoch t)
+    · rcases h.A t (ht.mono hnow) with h1 | h1 | h1
+      · exact Or.inl (by rw [hff]; exact h1)
+      · exact absurd hlt h1.2
+      · refine Or.inr (Or.inr (h1.of_reset hs ?_))
+        intro heq
+        rw [← heq] at hlt
+        exact hle hlt
+    · exact Or.inr (Or.inl ⟨hfn, hlt⟩)
 
-theorem attReorg_ainv (n : Net) {st : HState} {m : DMon} {lt : Option Nat} {now : Nat} {ff : Bool} {pend : Option Nat}
-    (r : Nat) (prev cur : Bool) (h : AInvD n st m lt now ff pend) (hnow : now ≤ r) :
-    AInvD n (attReorg n st r prev cur) m lt r
-      (if prev = true then true else ff)
-      (if prev = true then none
-       else if (cur && attShouldFetchNext n r && !ff) = true then keepOldest pend r else pend) := by
+theorem attReorg_inv (n : Net) {st : HState} {m : DMon} {lt : Option Nat} {now : Nat} {le : Option Nat}
+    (r : Nat) (prev cur : Bool) (h : AInv n st m lt now le) :
+    AInv n (attReorgN n st le r prev cur) m lt (max now r) le := by
+  have hnow : now ≤ max now r := Nat.le_max_left _ _
+  have hr : r ≤ max now r := Nat.le_max_right _ _
   have hem := epoch_mono n hnow
   cases prev
-  · simp only [Bool.false_eq_true, if_false]
-    cases cur
-    · simp only [attReorg, Bool.false_eq_true, if_false, Bool.false_and]
+  · cases cur
+    · simp only [attReorgN, attReorg, Bool.not_false, Bool.true_and, Bool.false_and, Bool.false_eq_true, if_false]
       exact att_keep_inv n h hnow rfl rfl (fun x => x) h.i1 h.i2
     · cases hsh : attShouldFetchNext n r
-      · simp only [attReorg, Bool.false_eq_true, if_false, if_true, hsh, Bool.and_false, Bool.false_and]
+      · simp only [attReorgN, attReorg, Bool.not_false, Bool.true_and, hsh, Bool.false_eq_true, if_false, if_true]
         exact att_keep_inv n h hnow rfl rfl (fun x => x) h.i1 h.i2
-      · simp only [attReorg, Bool.false_eq_true, if_false, if_true, hsh, Bool.true_and]
-        exact att_resetNext_inv n h hnow hsh rfl rfl rfl h.i1 h.i2
+      · simp only [attReorgN, attReorg, Bool.not_false, Bool.true_and, hsh, Bool.false_eq_true, if_false, if_true]
+        exact att_resetNext_inv n (n.epoch r) h hnow rfl rfl rfl h.i1 h.i2
   · -- previous dependent root changed: everything is re-fetched before the next execution
-    simp only [if_true]
     have hB : ∀ (st' : HState), st'.fetchFirst = true →
-        (∀ t, Cand lt r t → Cov .att st' m (n.epoch t + 1) ∨ (st'.fetchNext = true ∧ attShouldFetchNext n t = true)) →
-        st'.fetchCur = true → AInvD n st' m lt r true none := by
+        (∀ t, Cand lt (max now r) t → Cov .att st' m (n.epoch t + 1) ∨ st'.fetchNext = true) →
+        st'.fetchCur = true → AInv n st' m lt (max now r) le := by
       intro st' hff hb hfc
-      exact ⟨h.ok, hff.symm, fun t ht => Nat.le_trans (h.ltnow t ht) hnow, fun _ => hfc, fun _ => hfc,
-        fun K A hA => by have := h.dueLe K A hA; omega, fun r' hr' => (nomatch hr'), fun t _ => Or.inl hff, hb⟩
+      exact ⟨h.ok, fun t ht => Nat.le_trans (h.ltnow t ht) hnow, fun _ => hfc, fun _ => hfc,
+        fun K A hA => by have := h.dueLe K A hA; omega, fun K hK => by have := h.leLe K hK; omega,
+        fun t _ => Or.inl hff, hb⟩
     cases hsh : attShouldFetchNext n r
-    · simp only [attReorg, if_true, hsh, Bool.false_eq_true, if_false]
+    · simp only [attReorgN, attReorg, Bool.not_true, Bool.false_and, Bool.false_eq_true, if_false, if_true, hsh]
       apply hB _ rfl _ rfl
       intro t ht
-      have hpt := epoch_mono n ht.2
+      have hpt := epoch_mono n (Nat.le_trans hr ht.2)
       rcases h.B t (ht.mono hnow) with h1 | h1
       · exact Or.inl (h1.of_reset rfl (by omega))
       · exact Or.inr h1
-    · simp only [attReorg, if_true, hsh]
-      apply hB _ rfl _ rfl
-      intro t ht
-      have hpt := epoch_mono n ht.2
-      by_cases heq : n.epoch t = n.epoch r
-      · exact Or.inr ⟨rfl, attShould_mono n heq.symm ht.2 hsh⟩
-      · rcases h.B t (ht.mono hnow) with h1 | h1
-        · exact Or.inl (h1.transfer (fun x hx hk => mem_reset.mpr ⟨mem_reset.mpr ⟨hx, by omega⟩, by omega⟩) rfl)
-        · exact Or.inr ⟨rfl, h1.2⟩
+    · simp only [attReorgN, attReorg, Bool.not_true, Bool.false_and, Bool.false_eq_true, if_false, if_true, hsh]
+      exact hB _ rfl (fun t _ => Or.inr rfl) rfl
 
-theorem attIndices_ainv (n : Net) {st : HState} {m : DMon} {lt : Option Nat} {now : Nat} {ff : Bool} {pend : Option Nat}
-    (c : Nat) (h : AInvD n st m lt now ff pend) (hnow : now ≤ c) :
-    AInvD n (attIndices n st c) m lt c ff
-      (if (attShouldFetchNext n c && !ff) = true then keepOldest pend c else pend) := by
+theorem attIndices_inv (n : Net) {st : HState} {m : DMon} {lt : Option Nat} {now : Nat} {le : Option Nat}
+    (c : Nat) (h : AInv n st m lt now le) : AInv n (attIndicesN n st le c) m lt (max now c) le := by
+  have hnow : now ≤ max now c := Nat.le_max_left _ _
   cases hsh : attShouldFetchNext n c
-  · simp only [attIndices, hsh, Bool.false_eq_true, if_false, Bool.false_and]
+  · simp only [attIndicesN, attIndices, hsh, Bool.false_eq_true, if_false]
     exact att_keep_inv n h hnow rfl rfl (fun x => x) (fun _ => rfl) (fun _ => rfl)
-  · simp only [attIndices, hsh, if_true, Bool.true_and]
-    exact att_resetNext_inv n h hnow hsh rfl rfl rfl (fun _ => rfl) (fun _ => rfl)
+  · simp only [attIndicesN, attIndices, hsh, if_true]
+    exact att_resetNext_inv n (n.epoch c) h hnow rfl rfl rfl (fun _ => rfl) (fun _ => rfl)
 
-theorem quiet_att_tick (n : Net) (ff : Bool) (pend : Option Nat) (s c : Nat) (r1 r2 : FetchRes) (es : List Event)
-    (h : quietOK .att n ff pend (.tick s c r1 r2 :: es) = true) :
-    (∀ r, pend = some r → ¬ n.epoch r < n.epoch s) ∧ quietOK .att n false none es = true := by
-  simp only [quietOK, Bool.and_eq_true] at h
-  refine ⟨?_, h.2⟩
-  intro r hr
-  rw [hr] at h
-  simpa [keyOf] using h.1
+/-! ### whole runs -/
 
-theorem quiet_att_reorg (n : Net) (ff : Bool) (pend : Option Nat) (r : Nat) (p c : Bool) (es : List Event)
-    (h : quietOK .att n ff pend (.reorg r p c :: es) = true) :
-    quietOK .att n (if p = true then true else ff)
-      (if p = true then none
-       else if (c && attShouldFetchNext n r && !ff) = true then keepOldest pend r else pend) es = true := by
-  cases p <;> cases c <;> cases hs : attShouldFetchNext n r <;> cases ff <;> simp_all [quietOK]
-
-theorem quiet_att_indices (n : Net) (ff : Bool) (pend : Option Nat) (c : Nat) (es : List Event)
-    (h : quietOK .att n ff pend (.indices c :: es) = true) :
-    quietOK .att n ff (if (attShouldFetchNext n c && !ff) = true then keepOldest pend c else pend) es = true := by
-  cases hs : attShouldFetchNext n c <;> cases ff <;> simp_all [quietOK]
-
-theorem att_exactly_runFrom (n : Net) (hspe : 0 < n.spe) : ∀ (evs : List Event) (st : HState) (m : DMon) (lt : Option Nat)
-    (now : Nat) (ff : Bool) (pend : Option Nat),
-    AInvD n st m lt now ff pend → envOK lt now evs = true → quietOK .att n ff pend evs = true →
-    (drun .att n m (runFrom .att n st evs)).ok = true := by
+theorem att_exactly_runFrom (n : Net) (hspe : 0 < n.spe) : ∀ (evs : List Event) (rs : RState) (m : DMon)
+    (lt : Option Nat) (now : Nat),
+    AInv n rs.st m lt now rs.le → envOK lt now evs = true →
+    (drun .att n m (runFrom .att n rs evs)).ok = true := by
   intro evs
   induction evs with
-  | nil => intro st m lt now ff pend h _ _; exact h.ok
+  | nil => intro rs m lt now h _; exact h.ok
   | cons e es ih =>
-    intro st m lt now ff pend h henv hq
-    obtain ⟨hnow, hlt, henv'⟩ := envOK_cons henv
+    intro rs m lt now h henv
+    obtain ⟨htick, henv'⟩ := envOK_cons henv
     cases e with
     | tick s c r1 r2 =>
-      obtain ⟨hq1, hq2⟩ := quiet_att_tick n ff pend s c r1 r2 es hq
-      have hc : Cand lt now s := ⟨fun t0 ht0 => hlt t0 ht0 s c r1 r2 rfl, hnow⟩
-      simp only [runFrom, drun_append, step, attStep]
-      exact ih _ _ _ _ false none (attTick_ainv n hspe s c r1 r2 h hc hq1) henv' hq2
+      obtain ⟨hnow, hlt⟩ := htick s c r1 r2 rfl
+      have hc : Cand lt now s := ⟨hlt, hnow⟩
+      simp only [runFrom, step, drun_append]
+      exact ih ⟨_, _⟩ _ _ _ (attTick_inv n hspe s c r1 r2 h hc) henv'
     | reorg r p c =>
-      simp only [runFrom, step, attStep, List.nil_append]
-      exact ih _ _ _ _ _ _ (attReorg_ainv n r p c h hnow) henv' (quiet_att_reorg n ff pend r p c es hq)
+      simp only [runFrom, step, List.nil_append]
+      exact ih ⟨_, _⟩ _ _ _ (attReorg_inv n r p c h) henv'
     | indices c =>
-      simp only [runFrom, step, attStep, List.nil_append]
-      exact ih _ _ _ _ _ _ (attIndices_ainv n c h hnow) henv' (quiet_att_indices n ff pend c es hq)
+      simp only [runFrom, step, List.nil_append]
+      exact ih ⟨_, _⟩ _ _ _ (attIndices_inv n c h) henv'
 
 theorem att_exactly_run (n : Net) (hspe : 0 < n.spe) (clock0 : Nat) (r0 : FetchRes) (evs : List Event)
-    (henv : envOK none clock0 evs = true) (hq : quietOK .att n (ffInit .att) none evs = true) :
-    exactlyOnceOK .att n (run .att n clock0 r0 evs) = true := by
+    (henv : envOK none clock0 evs = true) : exactlyOnceOK .att n (run .att n clock0 r0 evs) = true := by
   unfold exactlyOnceOK run
-  have h0 : AInvD n attInit DMon.init none clock0 true none :=
-    ⟨rfl, rfl, fun t ht => (nomatch ht), fun _ => rfl, fun hh => (nomatch hh), fun K A hA => (nomatch hA),
-      fun r hr => (nomatch hr), fun t _ => Or.inl rfl, fun t _ => Or.inl (Cov.of_none rfl)⟩
-  have := att_exactly_runFrom n hspe evs _ _ none clock0 _ none h0 henv hq
+  have h0 : AInv n attInit DMon.init none clock0 none :=
+    ⟨rfl, fun t ht => (nomatch ht), fun _ => rfl, fun hh => (nomatch hh), fun K A hA => (nomatch hA),
+      fun K hK => (nomatch hK), fun t _ => Or.inl rfl, fun t _ => Or.inl (Cov.of_none rfl)⟩
+  have := att_exactly_runFrom n hspe evs ⟨attInit, none⟩ _ none clock0 h0 henv
   simpa [initH, drun, List.foldl_append] using this
 
 end Ssv.Duties
